@@ -22,6 +22,11 @@ Check(e) ==
       [] e.kind = "subst" -> SubstContract(e)
       [] e.kind = "rewrite" -> RewriteContract(e)
       [] e.kind = "cnf" -> CnfContract(e)
+      [] e.kind = "detect" -> DetectContract(e)
+      [] e.kind = "order" -> OrderContract(e)
+      [] e.kind = "combine" -> CombineContract(e)
+      [] e.kind = "closer" -> CloserContract(e, Trace.hdr)
+      [] e.kind = "mostgeneric" -> MostGenericContract(e, Trace.hdr)
       [] e.kind = "ack" -> AckContract(e)
       [] OTHER -> Verdict(<<"unknown_event_kind">>, <<>>, -1)
 
